@@ -16,7 +16,8 @@ RULE = ("cases are trees built through the public API (random shapes up to 60/40
         "name, content, tail, attribute/extras keys and values, prefixes, namespace maps incl. re-declared prefixes), generator-"
         "valid EML trees and tests/data/eml.xml; each goes through metapype_io to_json/from_json (with and without indent), "
         "mp_io to_json/from_json and the to_20210209 upgrade. distinct = distinct tree values; non-trivial = trees with at least "
-        "two nodes or at least one populated optional field")
+        "two nodes or at least one populated optional field"
+        ". Also: the same objects saved again after in-place edits, the same text loaded again after every dictionary of the first load was written into, qualified attributes as real documents carry them, id strings repeated on a path")
 ASSUMPTIONS = [
     "precondition re-checked per tree: every node's namespace prefixes include its parent's; attribute/extras values are strings",
     "loading a document re-uses the ids it carries, so the registry entries of the original tree are taken over by the reloaded one",
